@@ -2,10 +2,10 @@ package harness
 
 import (
 	"flag"
-	"os"
 	"fmt"
 	"io"
 	"math/rand/v2"
+	"os"
 	"regexp"
 	"runtime"
 	"runtime/debug"
@@ -84,6 +84,7 @@ func newEnv(pl *plan.Plan, out *plan.Outcome, keepLog bool) *Env {
 			Seed:     pl.Sched.Seed,
 			Choices:  pl.Sched.Choices,
 			Preempts: pl.Sched.Preempts,
+			Selects:  pl.Sched.Selects,
 			Sticky:   pl.Sched.Sticky,
 			MaxSteps: cfgOr(pl, "max_steps", 400_000),
 			MaxSyncs: cfgOr(pl, "max_syncs", 200_000),
@@ -190,6 +191,8 @@ func (e *Env) Run() string {
 		e.Out.Add("sched.tasks", int64(st.Tasks))
 		e.Out.Hash = fmt.Sprintf("%016x", e.Sim.Hash())
 		e.Out.Choices = e.Sim.ChoicesLog
+		e.Out.Selects = e.Sim.SelectLog
+		e.Out.Add("sched.select_choices", int64(st.SelectChoices))
 		e.Out.Log = e.Sim.Log()
 	} else {
 		// race layer: no scheduler; a task that never finishes shows as "stuck" after the idle
